@@ -112,6 +112,27 @@ fn absent(e: &J) -> bool {
     e["k"] == "absent"
 }
 
+/// a type annotation
+pub fn ty(t: &J) -> String {
+    match t["k"].as_str().unwrap_or("") {
+        "tname" => match t["n"].as_str().unwrap() {
+            "any" => "typing.Any".to_owned(),
+            "callable" => "typing.Callable".to_owned(),
+            "iterable" => "typing.Iterable".to_owned(),
+            n => n.to_owned(),
+        },
+        "tlist" => format!("list[{}]", ty(&t["a"])),
+        "tdict" => format!("dict[{}, {}]", ty(&t["a"]), ty(&t["b"])),
+        "ttupleof" => format!("tuple[{}, ...]", ty(&t["a"])),
+        "tunion" => t["items"].as_array().unwrap().iter().map(ty).collect::<Vec<_>>().join(" | "),
+        k => panic!("bad type kind {}", k),
+    }
+}
+
+fn has_ty(p: &J) -> bool {
+    p.get("ty").map(|t| t["k"] != "absent").unwrap_or(false)
+}
+
 pub fn params(ps: &mut J, line: u64) -> String {
     let mut out = Vec::new();
     let mut seen_star = false;
@@ -119,6 +140,7 @@ pub fn params(ps: &mut J, line: u64) -> String {
         let n = p["n"].as_str().unwrap().to_owned();
         let kind = p["kind"].as_str().unwrap().to_owned();
         let d = if absent(&p["d"]) { None } else { Some(expr(&mut p["d"], line)) };
+        let n = if has_ty(p) { format!("{}: {}", n, ty(&p["ty"])) } else { n };
         match kind.as_str() {
             "args" => {
                 seen_star = true;
@@ -391,7 +413,8 @@ impl Printer {
             }
             "def" => {
                 let p = params(&mut s["params"], line);
-                self.emit_line(indent, &format!("def {}({}):", s["name"].as_str().unwrap(), p));
+                let ret = if s.get("ret").map(|t| t["k"] != "absent").unwrap_or(false) { format!(" -> {}", ty(&s["ret"])) } else { String::new() };
+                self.emit_line(indent, &format!("def {}({}){}:", s["name"].as_str().unwrap(), p, ret));
                 self.block(&mut s["body"], indent + 1);
             }
             k => panic!("bad stmt kind {}", k),
